@@ -34,13 +34,19 @@ type FakeRT struct {
 	recs    []RTRecord
 	down    map[string]bool
 	latency map[string]time.Duration
-	closed  bool
+	pingLat map[string]time.Duration
+	failLat map[string]time.Duration
+	// StaleProbes makes a slow probe report the health it saw when it STARTED (a refused or
+	// accepted connection attempt that takes long to return), so that a stale failure can arrive
+	// after a newer success.
+	StaleProbes bool
+	closed      bool
 	closes  int
 }
 
 // NewFakeRT returns a fake transport with every address up and zero latency.
 func NewFakeRT() *FakeRT {
-	return &FakeRT{down: map[string]bool{}, latency: map[string]time.Duration{}}
+	return &FakeRT{down: map[string]bool{}, latency: map[string]time.Duration{}, pingLat: map[string]time.Duration{}, failLat: map[string]time.Duration{}}
 }
 
 // SetDown scripts an address down (ErrDial) or up.
@@ -54,6 +60,22 @@ func (f *FakeRT) SetDown(addr string, down bool) {
 func (f *FakeRT) SetLatency(addr string, d time.Duration) {
 	f.mu.Lock()
 	f.latency[addr] = d
+	f.mu.Unlock()
+}
+
+// SetPingLatency scripts how long a health probe (Ping) of an address takes, whether it then
+// succeeds or is refused.
+func (f *FakeRT) SetPingLatency(addr string, d time.Duration) {
+	f.mu.Lock()
+	f.pingLat[addr] = d
+	f.mu.Unlock()
+}
+
+// SetFailDelay scripts how long an operation on a down address takes to fail with ErrDial (a
+// connection attempt that times out instead of being refused at once).
+func (f *FakeRT) SetFailDelay(addr string, d time.Duration) {
+	f.mu.Lock()
+	f.failLat[addr] = d
 	f.mu.Unlock()
 }
 
@@ -80,17 +102,36 @@ func (f *FakeRT) do(addr, form string, args interface{}) error {
 		rec.ID, rec.Start = t.ID, t.Start
 	}
 	f.mu.Lock()
-	down := f.down[addr]
 	lat := f.latency[addr]
+	plat := f.pingLat[addr]
 	f.mu.Unlock()
+	f.mu.Lock()
+	downAtStart := f.down[addr]
+	f.mu.Unlock()
+	if form == "ping" && plat > 0 && addr != "" {
+		// a slow probe: by default the answer reflects the health at the moment it completes
+		time.Sleep(plat)
+	}
+	f.mu.Lock()
+	down := f.down[addr]
+	f.mu.Unlock()
+	if form == "ping" && f.StaleProbes {
+		down = downAtStart
+	}
 	var err error
 	switch {
 	case addr == "":
 		err = rpc.ErrDial
 	case down:
+		f.mu.Lock()
+		fd := f.failLat[addr]
+		f.mu.Unlock()
+		if fd > 0 && form != "ping" {
+			time.Sleep(fd)
+		}
 		err = rpc.ErrDial
 	default:
-		if lat > 0 {
+		if lat > 0 && form != "ping" {
 			time.Sleep(lat)
 		}
 	}
